@@ -1456,6 +1456,7 @@ func (c *Conn) waitResponse(d *connDeadline, id int32) (deadline time.Time, size
 
 		// Optimistically release the read lock if a response has already
 		// been received but the current operation is not the target for it.
+		verifPoint("conn.waitResponse.foreign")
 		c.rlock.Unlock()
 	}
 
